@@ -353,10 +353,25 @@ func (fc *fileCtx) rewrite() {
 						case pn.Imported().Path() == "time" && sel.Sel.Name == "Sleep":
 							fc.needTm = true
 							c.Replace(fc.mcCall("Sleep", n.Args...))
+						case pn.Imported().Path() == "time" && (sel.Sel.Name == "NewTimer" || sel.Sel.Name == "After" || sel.Sel.Name == "Tick" || sel.Sel.Name == "NewTicker"):
+							// timers fire "at any moment" under the controlled scheduler (engine/mc/timer.go)
+							fc.needTm = true
+							fc.stats["timer"]++
+							c.Replace(fc.mcCall(sel.Sel.Name, n.Args...))
+						case pn.Imported().Path() == "time" && sel.Sel.Name == "AfterFunc":
+							fc.unsup = append(fc.unsup, "time.AfterFunc at "+fc.pos(n))
 						case pn.Imported().Path() == "runtime" && sel.Sel.Name == "Gosched":
 							c.Replace(fc.mcCall("Yield"))
 						}
 					}
+				}
+			}
+		case *ast.SelectorExpr:
+			// the types time.Timer / time.Ticker (declarations, fields, parameters) become the shim types
+			if id, ok := n.X.(*ast.Ident); ok && (n.Sel.Name == "Timer" || n.Sel.Name == "Ticker") {
+				if pn, ok := fc.info.Uses[id].(*types.PkgName); ok && pn.Imported().Path() == "time" {
+					fc.needTm, fc.needMC = true, true
+					c.Replace(&ast.SelectorExpr{X: ast.NewIdent("verifmc"), Sel: ast.NewIdent(n.Sel.Name)})
 				}
 			}
 		case *ast.GoStmt:
